@@ -21,6 +21,9 @@ func c05Profile(tier string) *eng.Profile {
 		up(core.Call{F: "LTrim", B: bL, K: "k", I: 1, J: -1}),
 		up(core.Call{F: "LTrim", B: bL, K: "k", I: -2, J: -1}),
 		up(core.Call{F: "LTrim", B: bL, K: "k", I: 5, J: 9}),
+		// two index-addressed operations of one transaction on different indexes / different lists
+		up(core.Call{F: "LSet", B: bL, K: "k", I: 0, V: "y"}, core.Call{F: "LSet", B: bL, K: "k", I: 1, V: "w"}),
+		up(core.Call{F: "LSet", B: bL, K: "k", I: 0, V: "y"}, core.Call{F: "LSet", B: bL, K: "j", I: 0, V: "w"}),
 		{Kind: "begin-rollback", Calls: []core.Call{{F: "RPush", B: bL, K: "k", Vs: []string{"r"}}}},
 		{Kind: "reopen"},
 	}
